@@ -130,9 +130,17 @@ def worker(pid, tier, widx, seed, runs, max_s, here, outdir):
 
     corpus = os.path.join(outdir, 'corpus')
     os.makedirs(corpus, exist_ok=True)
+    # Starting corpus: byte strings of several lengths that are a pure function of the worker seed.  Every byte
+    # string is a valid choice sequence for Hypothesis, but a structured case needs hundreds of choices: from an
+    # empty corpus libFuzzer only produces inputs that are too short to build a case and never sees new coverage.
+    import random
+    rnd = random.Random(seed)
+    for i, n in enumerate([64, 128, 256, 512, 1024, 2048, 4096, 8192] * 2):
+        with open(os.path.join(corpus, 'seed%02d' % i), 'wb') as f:
+            f.write(bytes(rnd.getrandbits(8) if rnd.random() < 0.7 else 0 for _ in range(n)))
     flush()
-    argv = [sys.argv[0], '-runs=%d' % runs, '-seed=%d' % (seed % (2 ** 31 - 1) + 1), '-max_len=8192',
-            '-max_total_time=%d' % max_s, '-print_final_stats=1', '-verbosity=0', '-len_control=50', corpus]
+    argv = [sys.argv[0], '-runs=%d' % runs, '-seed=%d' % (seed % (2 ** 31 - 1) + 1), '-max_len=16384',
+            '-max_total_time=%d' % max_s, '-print_final_stats=1', '-verbosity=0', '-len_control=0', corpus]
     atheris.Setup(argv, one)
     atheris.Fuzz()
 
